@@ -232,7 +232,8 @@ func propC20(t *rapid.T) {
 		}
 	}
 	if long {
-		for j := 0; j < 1050+rapid.IntRange(0, 1300).Draw(t, "quiet"); j++ {
+		nq := 1050 + rapid.IntRange(0, 1300).Draw(t, "quiet")
+		for j := 0; j < nq; j++ {
 			blk := w.node.NewBlock(w.node.Tip(), nil, nil)
 			if err := w.node.Attach(blk); err != nil {
 				t.Fatalf("HARNESS: %v", err)
